@@ -1,0 +1,116 @@
+//go:build verif
+
+// Contracts for the govc verifier (/verif). Comment-only.
+//
+// G-DB: the assumed behaviour of the walletdb interfaces (= bbolt behind the
+// bdb adapter). A database is ghost state: which buckets exist (DBlive), which
+// keys each bucket holds (DBhas) with which values (DBval), bucket sequence
+// numbers (DBseq), and wfault = "a write operation failed during the current
+// operation". Every write may fail nondeterministically; a failed write
+// changes nothing and sets wfault. Buckets are identified by bid(bucket);
+// nested buckets by the injective sub(parent, key).
+
+package walletdb
+
+//@ ghost DBlive [Int]Bool
+//@ ghost DBhas [Int][Bytes]Bool
+//@ ghost DBval [Int][Bytes]Bytes
+//@ ghost DBseq [Int]Int
+//@ ghost wfault Bool
+//@ ghost commitHooks Int
+
+//@ const noKeys [Bytes]Bool
+//@ axiom noKeys_empty: forall k Bytes :: {select(noKeys, k)} !select(noKeys, k)
+//@ spec func bid(b Iface) Int
+//@ spec func sub(parent Int, key Bytes) Int
+//@ axiom sub_injective: forall p1 Int, k1 Bytes, p2 Int, k2 Bytes :: {sub(p1, k1), sub(p2, k2)} sub(p1, k1) == sub(p2, k2) ==> p1 == p2 && k1 == k2
+//@ axiom sub_not_self: forall p Int, k Bytes :: {sub(p, k)} sub(p, k) != p
+
+//@ macro LIVE(b, name) = select(DBlive, sub(bid(b), name))
+//@ macro HAS(id, k) = select(select(DBhas, id), k)
+//@ macro VAL(id, k) = select(select(DBval, id), k)
+
+//@ iface ReadBucket.NestedReadBucket(b, key) (r)
+//@   trusted
+//@   pure
+//@   ensures nil_iff_missing: (r == nil) == !select(DBlive, sub(bid(b), bytes(key)))
+//@   ensures id: r != nil ==> bid(r) == sub(bid(b), bytes(key))
+
+//@ iface ReadWriteBucket.NestedReadWriteBucket(b, key) (r)
+//@   trusted
+//@   pure
+//@   ensures nil_iff_missing: (r == nil) == !select(DBlive, sub(bid(b), bytes(key)))
+//@   ensures id: r != nil ==> bid(r) == sub(bid(b), bytes(key))
+
+// Get returns nil for a missing key (and for nested buckets), otherwise a
+// non-nil slice holding the value. The returned memory belongs to the
+// database (dbmem): it exists before the call, is never a Go allocation of the
+// verified code, and reading does not change any memory.
+//@ spec func dbmem(r Int) Bool
+//@ iface ReadBucket.Get(b, key) (v)
+//@   trusted
+//@   pure
+//@   ensures present: HAS(bid(b), bytes(key)) ==> v != nil && dbmem(v.base) && bytes(v) == VAL(bid(b), bytes(key))
+//@   ensures absent: !HAS(bid(b), bytes(key)) ==> v == nil
+
+//@ iface ReadBucket.Sequence(b) (r)
+//@   trusted
+//@   pure
+//@   ensures seq: r == select(DBseq, bid(b))
+
+//@ iface ReadWriteBucket.Put(b, key, value) (err)
+//@   trusted
+//@   modifies DBhas, DBval, wfault
+//@   ensures ok: err == nil ==> DBhas == store(old(DBhas), bid(b), store(select(old(DBhas), bid(b)), old(bytes(key)), true))
+//@       && DBval == store(old(DBval), bid(b), store(select(old(DBval), bid(b)), old(bytes(key)), old(bytes(value)))) && wfault == old(wfault)
+//@   ensures failed: err != nil ==> DBhas == old(DBhas) && DBval == old(DBval) && wfault
+
+//@ iface ReadWriteBucket.Delete(b, key) (err)
+//@   trusted
+//@   modifies DBhas, wfault
+//@   ensures ok: err == nil ==> DBhas == store(old(DBhas), bid(b), store(select(old(DBhas), bid(b)), old(bytes(key)), false)) && wfault == old(wfault)
+//@   ensures failed: err != nil ==> DBhas == old(DBhas) && wfault
+
+//@ iface ReadWriteBucket.CreateBucket(b, key) (r, err)
+//@   trusted
+//@   modifies DBlive, DBhas, wfault
+//@   ensures ok: err == nil ==> r != nil && bid(r) == sub(bid(b), old(bytes(key))) && !select(old(DBlive), bid(r))
+//@       && DBlive == store(old(DBlive), bid(r), true) && wfault == old(wfault)
+//@       && DBhas == store(old(DBhas), bid(r), noKeys)
+//@   ensures failed: err != nil ==> DBlive == old(DBlive) && DBhas == old(DBhas) && wfault
+
+//@ iface ReadWriteBucket.CreateBucketIfNotExists(b, key) (r, err)
+//@   trusted
+//@   modifies DBlive, DBhas, wfault
+//@   ensures ok: err == nil ==> r != nil && bid(r) == sub(bid(b), old(bytes(key)))
+//@       && DBlive == store(old(DBlive), bid(r), true) && wfault == old(wfault)
+//@       && DBhas == (select(old(DBlive), bid(r)) ? old(DBhas) : store(old(DBhas), bid(r), noKeys))
+//@   ensures failed: err != nil ==> DBlive == old(DBlive) && DBhas == old(DBhas) && wfault
+
+//@ iface ReadWriteBucket.DeleteNestedBucket(b, key) (err)
+//@   trusted
+//@   modifies DBlive, wfault
+//@   ensures ok: err == nil ==> DBlive == store(old(DBlive), sub(bid(b), old(bytes(key))), false) && wfault == old(wfault)
+//@   ensures failed: err != nil ==> DBlive == old(DBlive) && wfault
+
+//@ iface ReadWriteBucket.NextSequence(b) (r, err)
+//@   trusted
+//@   modifies DBseq, wfault
+//@   ensures ok: err == nil ==> r == select(old(DBseq), bid(b)) + 1 && DBseq == store(old(DBseq), bid(b), r) && wfault == old(wfault)
+//@   ensures failed: err != nil ==> DBseq == old(DBseq) && wfault
+
+//@ iface ReadWriteBucket.SetSequence(b, v) (err)
+//@   trusted
+//@   modifies DBseq, wfault
+//@   ensures ok: err == nil ==> DBseq == store(old(DBseq), bid(b), v) && wfault == old(wfault)
+//@   ensures failed: err != nil ==> DBseq == old(DBseq) && wfault
+
+//@ iface ReadWriteBucket.Tx(b) (tx)
+//@   trusted
+//@   pure
+//@   ensures nonnil: tx != nil
+
+//@ iface ReadWriteTx.OnCommit(tx, f)
+//@   trusted
+//@   modifies commitHooks
+//@   ensures registered: commitHooks == old(commitHooks) + 1
